@@ -19,6 +19,29 @@ func c10Lookups(c *ctx) {
 	perBase := c.argInt("years", 25)
 	c.emit(obj{"ev": "C10Env", "now": now})
 	c.header = func() { c.emit(obj{"ev": "C10Env", "now": now}) }
+	// queries taken from the last days of the year BEFORE the base year (outside the domain: only soundness is
+	// demanded): a lookup must not return them, whatever month the Jie table of that year puts them in.
+	// Two further seeded Julian-era bases get only these frames (Xiaohan falls in December there).
+	preBases := append([]int{}, bases...)
+	preBases = append(preBases, 853+c.rng.Intn(365), 1218+c.rng.Intn(365))
+	for bi, base := range preBases {
+		if !c.mine(base*3 + bi) {
+			continue
+		}
+		rows := []obj{}
+		for d := 18; d <= 31; d++ {
+			for _, hm := range [][2]int{{12, 30}, {23, 30}, {0, 30}} {
+				q, bad := safeSolar(base-1, 12, d, hm[0], hm[1], 0)
+				if bad {
+					continue
+				}
+				for _, sect := range []int{1, 2} {
+					rows = append(rows, c10Row(q, sect, base, len(rows)))
+				}
+			}
+		}
+		c.emit(obj{"ev": "C10Year", "y": base - 1, "b": base, "rows": rows})
+	}
 	for bi, base := range bases {
 		years := []int{base, base + 1, now - 1, now}
 		// a result before the base year can only be a 60-year partner of the year before it
@@ -101,39 +124,7 @@ func c10Lookups(c *ctx) {
 					continue // the domain starts at the Xiaohan of the base year
 				}
 				for _, sect := range []int{1, 2} {
-					row := obj{"q": sol(q), "s": sect, "b": base}
-					p, _ := try(func() {
-						l := q.GetLunar()
-						pz := pillars(q, sect)
-						row["pz"] = pz
-						pj, nj := l.GetPrevJie(), l.GetNextJie()
-						row["pj"] = sol(pj.GetSolar())
-						row["nj"] = sol(nj.GetSolar())
-						var lst []*calendar.Solar
-						if base == 1900 && sect == 2 && len(rows)%2 == 0 {
-							for i := calendar.ListSolarFromBaZi(pz[0], pz[1], pz[2], pz[3]).Front(); i != nil; i = i.Next() {
-								lst = append(lst, i.Value.(*calendar.Solar))
-							}
-							row["via"] = "default"
-						} else if base == 1900 {
-							for i := calendar.ListSolarFromBaZiBySect(pz[0], pz[1], pz[2], pz[3], sect).Front(); i != nil; i = i.Next() {
-								lst = append(lst, i.Value.(*calendar.Solar))
-							}
-							row["via"] = "bySect"
-						} else {
-							for i := calendar.ListSolarFromBaZiBySectAndBaseYear(pz[0], pz[1], pz[2], pz[3], sect, base).Front(); i != nil; i = i.Next() {
-								lst = append(lst, i.Value.(*calendar.Solar))
-							}
-							row["via"] = "byBase"
-						}
-						rs := []obj{}
-						for _, r := range lst {
-							rs = append(rs, obj{"at": sol(r), "pz": pillars(r, sect)})
-						}
-						row["r"] = rs
-					})
-					row["p"] = b2i(p)
-					rows = append(rows, row)
+					rows = append(rows, c10Row(q, sect, base, len(rows)))
 				}
 			}
 			if len(rows) > 0 {
@@ -141,6 +132,43 @@ func c10Lookups(c *ctx) {
 			}
 		}
 	}
+}
+
+// c10Row: one lookup with the pillars of q (k alternates the entry point for the default base)
+func c10Row(q *calendar.Solar, sect int, base int, k int) obj {
+	row := obj{"q": sol(q), "s": sect, "b": base}
+	p, _ := try(func() {
+		l := q.GetLunar()
+		pz := pillars(q, sect)
+		row["pz"] = pz
+		pj, nj := l.GetPrevJie(), l.GetNextJie()
+		row["pj"] = sol(pj.GetSolar())
+		row["nj"] = sol(nj.GetSolar())
+		var lst []*calendar.Solar
+		if base == 1900 && sect == 2 && k%2 == 0 {
+			for i := calendar.ListSolarFromBaZi(pz[0], pz[1], pz[2], pz[3]).Front(); i != nil; i = i.Next() {
+				lst = append(lst, i.Value.(*calendar.Solar))
+			}
+			row["via"] = "default"
+		} else if base == 1900 {
+			for i := calendar.ListSolarFromBaZiBySect(pz[0], pz[1], pz[2], pz[3], sect).Front(); i != nil; i = i.Next() {
+				lst = append(lst, i.Value.(*calendar.Solar))
+			}
+			row["via"] = "bySect"
+		} else {
+			for i := calendar.ListSolarFromBaZiBySectAndBaseYear(pz[0], pz[1], pz[2], pz[3], sect, base).Front(); i != nil; i = i.Next() {
+				lst = append(lst, i.Value.(*calendar.Solar))
+			}
+			row["via"] = "byBase"
+		}
+		rs := []obj{}
+		for _, r := range lst {
+			rs = append(rs, obj{"at": sol(r), "pz": pillars(r, sect)})
+		}
+		row["r"] = rs
+	})
+	row["p"] = b2i(p)
+	return row
 }
 
 func init() { cmds["c10lookups"] = c10Lookups }
